@@ -81,7 +81,7 @@ def confirm(rec, families):
 
 def run(pid: str, tier: str, families=None, extra_requests=None, worker=None, variants=None,
         confirm_fn=None, validate=True, level="model_checking", functions=None, extra_assumptions=(),
-        task_filter=None, extra=None):
+        task_filter=None, extra=None, validator=None):
     """Generic kernel sweep.  ``variants``: list of dicts merged into every task (one task per
     variant), e.g. the two C05 programs."""
     t0 = time.time()
@@ -160,7 +160,9 @@ def run(pid: str, tier: str, families=None, extra_requests=None, worker=None, va
                             "paths": r["stats"]["paths"], "queries": r["stats"]["queries"],
                             "witness": r.get("witness")})
     # validate the executor against the implementation on witnesses
-    if validate:
+    if validator is not None:
+        validated, val_problems = validator(results, 8 if tier == "quick" else 30)
+    elif validate:
         validated, val_problems = validate_witnesses(results, families, limit=12 if tier == "quick" else 40)
     else:
         validated, val_problems = 0, []
